@@ -166,6 +166,42 @@ func runC01(c *Ctx) {
 			}
 		}
 		c.guarded(f2, equalIs("blockHeader.PrevBlock vs lastHeader", cmps, true), 1, "return true", retTrue, 1, gFailEdge)
+		// every header of the message is linked to its predecessor: from each
+		// element of the slice the PrevBlock comparison is reached within the
+		// iteration; the only exemption is the very first header (lastHeader is
+		// still the zero hash)
+		var starts []start
+		ir.Instrs(f2, func(in ssa.Instruction) {
+			ia, ok := in.(*ssa.IndexAddr)
+			if ok && ir.Strip(ia.X) == ssa.Value(f2.Params[0]) {
+				starts = append(starts, afterInstr(c, in))
+			}
+		})
+		firstCut := ir.Cut{}
+		ir.Instrs(f2, func(in ssa.Instruction) {
+			b, ok := in.(*ssa.BinOp)
+			if !ok || (b.Op != token.EQL && b.Op != token.NEQ) || loadsField(prevBlock)(b.X) || loadsField(prevBlock)(b.Y) {
+				return
+			}
+			// comparison of two hash values neither of which is a PrevBlock:
+			// lastHeader == emptyHash (first header of the message)
+			hashT := c.P.Named(pChainhash, "Hash")
+			if hashT == nil || !types.Identical(b.X.Type(), hashT) || !types.Identical(b.Y.Type(), hashT) {
+				return
+			}
+			for _, br := range ir.EqBranches(b) {
+				firstCut[br.Edge()] = true
+			}
+		})
+		isCmp := func(in ssa.Instruction) bool {
+			for _, x := range cmps {
+				if x == in {
+					return true
+				}
+			}
+			return false
+		}
+		c.mustFollowIter(f2, "each header of the message", starts, isCmp, "blockHeader.PrevBlock != lastHeader comparison", firstCut, 1)
 	})
 
 	c.rule("C01.G4", "handleHeadersMsg: on a checkpoint-height header whose hash differs from the checkpoint the batch is not written; rollBackToHeight and peer.Disconnect follow", func() {
@@ -230,6 +266,10 @@ func runC01(c *Ctx) {
 			okAdv = valIsCallTo(findNext)(st.(*ssa.Store).Val)
 		}
 		c.verdict(okAdv, c.nm(fn)+" | nextCheckpoint advanced by findNextHeaderCheckpoint", c.P.Pos(fn.Pos()), "b.nextCheckpoint = b.findNextHeaderCheckpoint(finalHeight)", "nextCheckpoint is not advanced through findNextHeaderCheckpoint")
+	})
+
+	c.rule("C01.G6", "checkpoint-mismatch recovery rolls back below the failing checkpoint: findPreviousHeaderCheckpoint adopts a checkpoint only if its height is strictly below the given height", func() {
+		c.prevCheckpointStrict()
 	})
 
 	c.rule("C01.W1", "only the tabled functions write or roll back the block-header store (BlockHeaderStore.WriteHeaders / RollbackBlockHeaders / RollbackLastBlock)", func() {
@@ -404,4 +444,45 @@ func runC01(c *Ctx) {
 		c.verdict(okArg, c.nm(fn)+" | ResetHeaderState argument derives from BlockHeaders.ChainTip()", c.P.Pos(fn.Pos()),
 			"reset node built from the store's chain tip", "ResetHeaderState is not fed from BlockHeaders.ChainTip()", c.ats(resets)...)
 	})
+}
+
+// prevCheckpointStrict: findPreviousHeaderCheckpoint returns a checkpoint
+// strictly below the height it is given (the genesis pseudo-checkpoint when
+// there is none): a candidate is adopted only behind `checkpoint.Height <
+// height`. The checkpoint-mismatch recovery of handleHeadersMsg relies on it:
+// it rolls back to findPreviousHeaderCheckpoint(failing height); were the
+// failing checkpoint itself returned, nothing would be rolled back and the
+// bogus branch below the checkpoint would stay in the store.
+func (c *Ctx) prevCheckpointStrict() {
+	fn := c.fn("(*neutrino.blockManager).findPreviousHeaderCheckpoint")
+	cpHeight := c.field(pChaincfg, "Checkpoint", "Height")
+	isCp := func(v ssa.Value) bool { return loadsField(cpHeight)(v) }
+	isH := func(v ssa.Value) bool { return ir.Strip(v) == ssa.Value(fn.Params[1]) }
+	g, odd := relGuard("checkpoint.Height < height", fn, isCp, isH, token.LSS)
+	if len(odd) > 0 {
+		c.fail(c.nm(fn)+" | comparison shape", c.P.Pos(fn.Pos()), "the candidate checkpoint's height is compared with the given height by "+join(odd)+": a checkpoint AT the given height must not be returned")
+	}
+	// effects: the candidate addresses that can reach the returned value
+	var cands []ssa.Instruction
+	for _, in := range find(fn, isExit) {
+		v := ir.RetVal(in.(*ssa.Return), 0)
+		seen := map[ssa.Value]bool{}
+		var walk func(v ssa.Value)
+		walk = func(v ssa.Value) {
+			if seen[v] {
+				return
+			}
+			seen[v] = true
+			switch x := v.(type) {
+			case *ssa.Phi:
+				for _, e := range x.Edges {
+					walk(e)
+				}
+			case *ssa.IndexAddr:
+				cands = append(cands, x)
+			}
+		}
+		walk(v)
+	}
+	c.guarded(fn, g, 1, "adopt checkpoints[i] as the previous checkpoint", cands, 1, gDominate)
 }
